@@ -105,7 +105,10 @@ impl ExecutionParameters {
         shell: &Shell<impl extensions::ShellExtensions>,
     ) -> impl std::io::Write + 'static {
         self.try_stderr(shell).unwrap_or_else(|| {
-            ioutils::FailingReaderWriter::new("standard error not available").into()
+            // Diagnostics written while standard error is closed are dropped; they must not
+            // turn into errors that abort the command that tried to report something.
+            ioutils::FailingReaderWriter::new_discarding_writes("standard error not available")
+                .into()
         })
     }
 
